@@ -1574,6 +1574,67 @@ fn frame_level_case(r: &mut Rng, focus: Focus) -> World {
     w
 }
 
+/// Half-close in the middle of an acknowledgement period, then a long reply drained slowly: one end
+/// has consumed a few frames (fewer than its threshold) when it shuts its write side down; the peer
+/// then writes as fast as its credit allows while the half-closed end does not read; finally
+/// everything is read. The half-closed direction must stay fully usable: no reset, every byte, EOF last.
+fn half_close_reply_case(r: &mut Rng, focus: Focus) -> World {
+    let mut oa = gen_opts(r, focus);
+    let ob = gen_opts(r, focus);
+    // the end that half-closes: a window of at least 2 and a threshold of at least 2 (so that "a few
+    // frames consumed, none acknowledged yet" exists)
+    oa.rwnd = *r.pick(&[2u32, 3, 4, 8]);
+    oa.threshold = r.range(2, u64::from(oa.rwnd)) as u32;
+    let mut w = World::new([oa, ob]);
+    for e in 0..2 {
+        let mut t = vec![s("rng")];
+        t.extend((0..8).map(|_| s(r.range(1, 0xffff_ffff))));
+        w.stim(e, &t);
+        w.view[e].rng_left = 8;
+    }
+    // which side opens does not matter: both are tried
+    let oe = r.below(2) as usize;
+    let req = w.next_req; w.next_req += 1;
+    w.stim(oe, &[s("open"), s(req), hexd(&r.bytes(2)), s(1000 + req)]);
+    w.deliver_next(1 - oe);
+    w.stim(1 - oe, &[s("accept")]);
+    w.deliver_next(oe);
+    if !w.view[0].handles.is_empty() && !w.view[1].handles.is_empty() {
+        let tag = r.next() as u8;
+        let th = w.opts[0].threshold.min(w.opts[0].rwnd).min(w.opts[1].rwnd).max(1);
+        // B sends k frames (0 < k < threshold of A where possible), A consumes them
+        let k = if th >= 2 { r.range(1, u64::from(th) - 1) } else { 1 };
+        for _ in 0..k {
+            let d = gen_payload(r, tag, w.view[1].handles[0].written.len());
+            let d = if d.is_empty() { vec![tag] } else { d };
+            w.stim(1, &[s("write"), s(0), hexd(&d)]);
+            while w.deliver_next(0) {}
+        }
+        for _ in 0..k { w.stim(0, &[s("read"), s(0), s(4096)]); }
+        // A may have written its request; then it half-closes
+        if r.chance(1, 2) {
+            let d = gen_payload(r, tag.wrapping_add(91), 0);
+            w.stim(0, &[s("write"), s(0), hexd(&d)]);
+        }
+        w.stim(0, &[s("shutdown"), s(0)]);
+        while w.deliver_next(1) {}
+        // the long reply: B writes whenever it can, everything is delivered, A does not read
+        let rounds = 3 * w.opts[0].rwnd + 4;
+        for _ in 0..rounds {
+            let hi = &w.view[1].handles[0];
+            let d = hi.pending_write.clone().unwrap_or_else(|| { let d = gen_payload(r, tag, hi.written.len()); if d.is_empty() { vec![tag] } else { d } });
+            w.stim(1, &[s("write"), s(0), hexd(&d)]);
+            while w.deliver_next(0) {}
+            while w.deliver_next(1) {}
+            if r.chance(1, 4) { w.stim(0, &[s("read"), s(0), s(*r.pick(&[1u64, 8, 4096]))]); while w.deliver_next(1) {} }
+        }
+        if r.chance(1, 2) { w.stim(1, &[s("shutdown"), s(0)]); }
+    }
+    fair_completion(&mut w, 40);
+    final_checks(&mut w);
+    w
+}
+
 /// A local drop under back-pressure: the sink stops, several messages are queued, the sink accepts a
 /// few of them, the Multiplexor is dropped, the sink opens again. Everything queued before the drop
 /// has to reach the wire, in order, before the close.
@@ -2308,6 +2369,18 @@ fn main() {
             let mut r = base.fork(k);
             match catch(|| huge_write_case(&mut r, focus)) {
                 Ok(w) => handle_world(w, "huge-write", &mut rep, &mut drv),
+                Err(p) => rep.fail(FailKind::Impl, "harness-panic", &format!("panic outside a stimulus: {p}"), json!({})),
+            }
+        }
+    }
+    // half-close in the middle of an acknowledgement period, then a long reply drained slowly
+    if matches!(focus, Focus::C05 | Focus::C03 | Focus::C02 | Focus::C04) {
+        let n = match args.tier { Tier::Quick => 40, Tier::Thorough => 1000 };
+        let base = Rng::new(args.seed ^ fnv(focus.name().as_bytes()) ^ 0x6861_6c66);
+        for k in 0..n {
+            let mut r = base.fork(k);
+            match catch(|| half_close_reply_case(&mut r, focus)) {
+                Ok(w) => handle_world(w, "half-close-reply", &mut rep, &mut drv),
                 Err(p) => rep.fail(FailKind::Impl, "harness-panic", &format!("panic outside a stimulus: {p}"), json!({})),
             }
         }
